@@ -1366,11 +1366,15 @@ func (m *mergeQuery) Select(t iterator) NodeNavigator {
 			}
 			m.Child.Evaluate(t)
 			root = root.Copy()
+			// The child step is evaluated with its parent as context node; afterwards
+			// the context goes back to where it was (see filterQuery.Select).
+			saved := t.Current().Copy()
 			t.Current().MoveTo(root)
 			var list []NodeNavigator
 			for node := m.Child.Select(t); node != nil; node = m.Child.Select(t) {
 				list = append(list, node.Copy())
 			}
+			t.Current().MoveTo(saved)
 			i := 0
 			m.iterator = func() NodeNavigator {
 				if i >= len(list) {
